@@ -156,12 +156,14 @@ pub fn gen_value(rng: &mut Rng, l: &Layout, f: usize) -> u128 {
     let fd = &l.fields[f];
     match fd.legal_values() {
         Some(vs) => *rng.pick(&vs),
-        None => biased_bits(rng, fd.width()),
+        None => biased_bits(rng, fd.value_width()),
     }
 }
 
 fn gen_init(rng: &mut Rng, l: &Layout, slot: usize) -> Op {
-    if rng.chance(15, 100) {
+    // class-D probes are about the default value: start from it most of the time
+    let p_special = if l.class.starts_with("D:") { 70 } else { 15 };
+    if rng.chance(p_special, 100) {
         let which = if l.default.is_some() { rng.below(4) as u8 } else { SPECIAL_ZERO };
         Op::InitSpecial { slot, which }
     } else {
